@@ -20,6 +20,27 @@ func (m *Model) IsSharedWord(a AddrPath) bool {
 			// sync.Mutex inside the bucket is not a data word
 			return !m.isMutexField(a)
 		}
+		if a.Owner == mm.StateOwner && mm.StateOwner != mm.Name {
+			// resize bookkeeping embedded by value: the flag and the 64-bit statistics words
+			if a.Field == mm.FlagF {
+				return true
+			}
+			if obj := m.P.Xsync.Pkg.Scope().Lookup(mm.StateOwner); obj != nil {
+				if st := structOf(obj.Type()); st != nil {
+					for i := 0; i < st.NumFields(); i++ {
+						if st.Field(i).Name() == a.Field {
+							if b, ok := st.Field(i).Type().(*types.Basic); ok && b.Kind() == types.Int64 {
+								return true
+							}
+							if IsAtomicWordType(st.Field(i).Type()) {
+								return true
+							}
+						}
+					}
+				}
+			}
+			return false
+		}
 		if a.Owner == mm.Name {
 			if a.Field == mm.TableF || a.Field == mm.FlagF {
 				return true
